@@ -14,7 +14,8 @@
    body gets a fresh jump entry (the reported entry), every later body patches
    the placeholder recorded for it; placeholders are pushed as 0; after a body
    each of its end instructions is appended, except an EndExpression equal to
-   the last instruction of the whole table as it was when the body finished.
+   the last instruction of the whole table as it was when the body finished,
+   provided no jump entry of this build names the end of the stream.
 
    The context a node is compiled in is exactly what its BuildNode carries:
    the containing expression's jump index, the definition of the list it is a
@@ -351,12 +352,16 @@ Definition last_instr (s : cst) : option instr :=
 
 (* end instructions of a body: each is appended, except an EndExpression that
    equals the last instruction of the table as it was when the body finished
-   (read once) *)
+   (read once) -- and only if no jump entry of this build names the current end
+   of the stream (a join after a chain that ends in `;;`, the entry of a body
+   that emitted nothing) *)
 Definition finish (s : cst) (ends : list instr) : cst :=
   let last := last_instr s in
+  let end_is_jump_target := existsb (Nat.eqb (il s)) (cj s) in
   fold_left (fun acc e =>
                match last with
-               | Some li => if instr_eqb li e && instruction_eqb (fst e) I_EndExpression then acc else emit acc e None
+               | Some li => if instr_eqb li e && instruction_eqb (fst e) I_EndExpression && negb end_is_jump_target
+                            then acc else emit acc e None
                | None => emit acc e None
                end) ends s.
 
